@@ -51,7 +51,7 @@ class LoopCheck(Check):
                         continue
                     samplers = ["MiniPCNSMC"] if tier == "quick" else ["MiniPCNSMC", "EmceeSMC"]
                     for s in samplers:
-                        if s == "EmceeSMC" and sched.startswith("adaptive"):
+                        if s == "EmceeSMC" and (sched.startswith("adaptive") or "max_n_steps" in smc_loop.SCHEDULES[sched] or "min_step" in smc_loop.SCHEDULES[sched]):
                             continue  # EmceeSMC.sample does not expose min_step / max_n_steps
                         c = {
                             "name": f"{flow}-{s}-{sched}-{'nf' if n_final else 'std'}",
